@@ -1282,7 +1282,7 @@ def _parse_spec(syslist, spec, signame, dictname=None):
 
     # Make sure the system index is valid
     if system_index < 0 or system_index >= len(syslist):
-        ValueError(f"system index '{system_index}' is out of range")
+        raise ValueError(f"system index '{system_index}' is out of range")
 
     # Figure out the name of the dictionary to use for signal names
     dictname = signame + '_index' if dictname is None else dictname
@@ -1309,7 +1309,7 @@ def _parse_spec(syslist, spec, signame, dictname=None):
     # Make sure the signal indices are valid
     for index in signal_indices:
         if index < 0 or index >= nsignals:
-            ValueError(f"signal index '{index}' is out of range")
+            raise ValueError(f"signal index '{index}' is out of range")
 
     return system_index, signal_indices, gain
 
